@@ -82,6 +82,7 @@ const (
 type queueTrigger struct {
 	trigger  int32
 	state    int32 // 0: active, 1: closing, 2: closed
+	adding   int32 // number of Add calls in progress
 	runNum   int32
 	w, r     int32      // ptr of list
 	list     []int32    // record the triggered shard
@@ -90,7 +91,11 @@ type queueTrigger struct {
 
 // Add adds to q.getters[shard]
 func (q *ShardQueue) Add(gts ...WriterGetter) {
+	// Close waits for the Add calls in progress: a getter may already be in its shard
+	// while the trigger for it has not been counted yet.
+	atomic.AddInt32(&q.adding, 1)
 	if atomic.LoadInt32(&q.state) != active {
+		atomic.AddInt32(&q.adding, -1)
 		return
 	}
 	shard := atomic.AddInt32(&q.idx, 1) % q.size
@@ -101,6 +106,7 @@ func (q *ShardQueue) Add(gts ...WriterGetter) {
 	if trigger {
 		q.triggering(shard)
 	}
+	atomic.AddInt32(&q.adding, -1)
 }
 
 func (q *ShardQueue) Close() error {
@@ -109,7 +115,7 @@ func (q *ShardQueue) Close() error {
 	}
 	// wait for all tasks finished
 	for atomic.LoadInt32(&q.state) != closed {
-		if atomic.LoadInt32(&q.trigger) == 0 {
+		if atomic.LoadInt32(&q.adding) == 0 && atomic.LoadInt32(&q.trigger) == 0 {
 			atomic.StoreInt32(&q.state, closed)
 			return nil
 		}
@@ -165,8 +171,10 @@ func (q *ShardQueue) foreach() {
 			q.foreach()
 			return
 		}
-		// if state is closing, change it to closed
-		atomic.CompareAndSwapInt32(&q.state, closing, closed)
+		// if state is closing, change it to closed (unless an Add is still in progress)
+		if atomic.LoadInt32(&q.adding) == 0 {
+			atomic.CompareAndSwapInt32(&q.state, closing, closed)
+		}
 	})
 }
 
